@@ -4,7 +4,7 @@ MANIFEST = dict(
     category="other",
     text="Products (matrix-matrix incl. the 4-way unrolled path and its dispatch, matrix-vector, vector-matrix, dot, outer) are compared cell "
          "by cell with the textbook sum in ring mode "
-         "(double := Z/256, exact arithmetic) for every inner dimension 0..9 (all residues mod 4 twice) and small outer dimensions; transpose, "
+         "(double := Z/256, exact arithmetic) for every inner dimension 0..8 (all residues mod 4 twice) and small outer dimensions; transpose, "
          "involution, trace and sorting (permutation of rows + ordered key) in exact IEEE mode. Bounded shapes, all values symbolic.",
     note="Ring mode drops rounding and the NaN/Inf/MISSING filter branches; identity over Z/256 implies identity over the reals for these degree-2 "
          "polynomials with small coefficients (DESIGN 3.4, stated lemma). Norms, covariance (PSD), column statistics values are numerical and not decided.",
@@ -16,11 +16,11 @@ META = dict(decided="products == textbook sums for all residues of the inner dim
 
 S = ["matrix.c", "vector.c", "memwrapper.c", "numeric.c", "tensor.c"]
 
-def R(name, entry, d, clause, mode="ring", fns=(), tier="quick", cells=None):
+def R(name, entry, d, clause, mode="ring", fns=(), tier="quick", cells=None, **kw):
     if cells:
-        return [R(name, entry, dict(d, VC_GI=gi, VC_GJ=gj), clause + " [ghost cell (%d,%d)]" % (gi, gj), mode, fns, tier)[0] for (gi, gj) in cells]
+        return [R(name, entry, dict(d, VC_GI=gi, VC_GJ=gj), clause + " [ghost cell (%d,%d)]" % (gi, gj), mode, fns, tier, **kw)[0] for (gi, gj) in cells]
     tag = ",".join("%s=%s" % (k[3:], v) for k, v in d.items())
-    return [Job("%s@%s" % (name, tag), "C11/kernels.c", entry=entry, srcs=S, mode=mode, kind="bounded", defines=d, tier=tier,
+    return [Job("%s@%s" % (name, tag), "C11/kernels.c", entry=entry, srcs=S, mode=mode, kind="bounded", defines=d, tier=tier, **dict(dict(timeout=900 if tier == "quick" else 1800), **kw),
                unwind=max(v for k, v in d.items() if k not in ('VC_GI', 'VC_GJ')) + 3, functions=list(fns),
                bound="concrete shape %s; values symbolic in %s" % (tag, "the ring Z/256" if mode == "ring" else "IEEE binary64"), clause=clause)]
 
@@ -33,7 +33,9 @@ def jobs(tier):
             J.extend(R("MatrixDotProduct", "h_MatrixDotProduct", {"VC_M": m, "VC_N": n, "VC_P": p},
                        "matrix product == textbook sum added to the previous output (plain path for inner dim <= 3, unrolled path above)",
                        fns=["MatrixDotProduct", "MatrixDotProduct_", "MatrixDotProduct_LOOP_UNROLLING"],
-                       cells=[(i, j) for i in range(m) for j in range(p)]))
+                       cells=[(i, j) for i in range(m) for j in range(p)],
+                       # inner dimension 9 (third visit of residue 1) is attempted only: solver time varies from minutes to beyond the limit
+                       **(dict(advisory=True, timeout=900) if n == 9 else {})))
         J.extend(R("MatrixDVectorDotProduct", "h_MatrixDVectorDotProduct", {"VC_M": 2, "VC_N": n}, "M*v == textbook sum added to previous output", fns=["MatrixDVectorDotProduct"], cells=[(0, -1), (1, -1)]))
         J.extend(R("DVectorMatrixDotProduct", "h_DVectorMatrixDotProduct", {"VC_M": n, "VC_N": 2}, "v'*M == textbook sum added to previous output", fns=["DVectorMatrixDotProduct"], cells=[(0, -1), (1, -1)]))
     # (AB)^T = B^T A^T and A(B+C) = AB+AC: harness h_product_laws exists, but no back end finished even the 1x1x1 instance (C integer
@@ -49,6 +51,9 @@ def jobs(tier):
     for (m, n) in [(2, 3), (3, 1), (0, 2), (1, 4)]:
         J.extend(R("trace_transpose", "h_trace_transpose", {"VC_M": m, "VC_N": n}, "transpose, involution (data movement, IEEE); trace", mode="ieee" if n <= 1 else "ring",
                    fns=["MatrixTranspose", "MatrixTrace"]))
+    for (m, n) in ([(13, 14), (17, 13)] if tier == "quick" else [(13, 14), (17, 13), (15, 15), (14, 17), (9, 18)]):
+        J.extend(R("transpose_large", "h_transpose_large", {"VC_M": m, "VC_N": n}, "transpose == definition and involution on shapes above small-tile thresholds, dimensions not multiples of 4 (data movement, IEEE)",
+                   mode="ieee", fns=["MatrixTranspose"]))
     for (m, n) in ([(2, 2), (1, 3)] if tier == "quick" else [(2, 2), (1, 3), (3, 1), (2, 3)]):
         J.extend(R("tensor_contractions", "h_tensor_contractions", {"VC_M": m, "VC_N": n}, "tensor-vector / vector-tensor / tensor-matrix contractions == their index definitions, added to the previous output",
                    fns=["TransposedTensorDVectorProduct", "DvectorTensorDotProduct", "TensorMatrixDotProduct"], cells=[(k, i) for k in range(2) for i in range(max(m, n))]))
